@@ -66,6 +66,7 @@ VARIANTS = {
     OPT: (("None", 0), ("Some", 1)),
     RES: (("Ok", 0), ("Err", 1)),
     CF: (("Continue", 0), ("Break", 1)),
+    "polonius_the_crab::PoloniusResult": (("Borrowing", 0), ("Owned", 1)),
 }
 
 
@@ -250,6 +251,37 @@ def residual_conversion(full):
     return "<%s as std::convert::From<%s>>::from" % (fa[1], ra[1])
 
 
+def from_impl_of(F, full):
+    if True:
+        """the workspace `impl From<A> for B` behind `<A as Into<B>>::into` / `<B as From<A>>::from`, if there is exactly one"""
+        p = _as_parts(full or "")
+        if F is None or not p:
+            return None
+        a, tr, args = p
+        t = tr.rsplit("::", 1)[-1]
+        if t == "Into" and len(args) == 1:
+            src, dst = a, args[0]
+        elif t == "From" and len(args) == 1:
+            src, dst = args[0], a
+        else:
+            return None
+        head = lambda t: t.strip().lstrip("&").strip().split("<", 1)[0]
+        want = (head(dst), head(src))
+        idx = getattr(F, "_from_index", None)
+        if idx is None:
+            idx = {}
+            for fid, g in F.fns.items():
+                if fid.endswith(">::from") and " as std::convert::From<" in fid and not g.is_closure:
+                    q = _as_parts(fid)
+                    if q and len(q[2]) == 1:
+                        idx.setdefault((head(q[0]), head(q[2][0])), []).append(fid)
+            F._from_index = idx
+        if not want[0] or not want[1] or want[0][:1].isupper() or want[1][:1].isupper():
+            return None          # a bare type parameter on either side: no particular impl
+        c = [x for x in (idx.get(want) or []) if x not in getattr(F, "noinline", ())]
+        return c[0] if len(c) == 1 else None
+
+
 class Models:
     """call models; `w` is the walker (for closure inlining), every model returns a list of Out or None"""
 
@@ -343,37 +375,16 @@ class Models:
                         return agg(adt_path + "::" + last, *a)
         if head in VARIANTS and any(nm == last for nm, _ in VARIANTS[head]) and len(a) == 1:
             return agg(head + "::" + last, *a)
+        st = F.adts.get(path)
+        if st is not None and st.get("kind") == "struct" and len(st.get("variants", ())) == 1 and len(st["variants"][0]["fields"]) == len(a) and \
+                all(str(fl.get("name", "")).isdigit() for fl in st["variants"][0]["fields"]):
+            return agg(path + "::" + last, *a)          # a tuple struct's name used as a function: `.map(Wrapper)`
         return None
 
     def from_impl(self, full):
-        """the workspace `impl From<A> for B` behind `<A as Into<B>>::into` / `<B as From<A>>::from`, if there is exactly one"""
-        F = self.w.facts
-        p = _as_parts(full or "")
-        if F is None or not p:
-            return None
-        a, tr, args = p
-        t = tr.rsplit("::", 1)[-1]
-        if t == "Into" and len(args) == 1:
-            src, dst = a, args[0]
-        elif t == "From" and len(args) == 1:
-            src, dst = args[0], a
-        else:
-            return None
-        head = lambda t: t.strip().lstrip("&").strip().split("<", 1)[0]
-        want = (head(dst), head(src))
-        idx = getattr(F, "_from_index", None)
-        if idx is None:
-            idx = {}
-            for fid, g in F.fns.items():
-                if fid.endswith(">::from") and " as std::convert::From<" in fid and not g.is_closure:
-                    q = _as_parts(fid)
-                    if q and len(q[2]) == 1:
-                        idx.setdefault((head(q[0]), head(q[2][0])), []).append(fid)
-            F._from_index = idx
-        if not want[0] or not want[1] or want[0][:1].isupper() or want[1][:1].isupper():
-            return None          # a bare type parameter on either side: no particular impl
-        c = [x for x in (idx.get(want) or []) if x not in getattr(F, "noinline", ())]
-        return c[0] if len(c) == 1 else None
+        return from_impl_of(self.w.facts, full)
+
+
 
     def model(self, path, full, a, ce, site, known):
         n = path.rsplit("::", 1)[-1]
@@ -452,6 +463,25 @@ class Models:
                 return [Out([], [], ERR(r[3][0]))]
             if r[0] == "agg" and r[1] == "adt" and r[2] == OPT + "::None":
                 return [Out([], [], NONE)]
+        # ---- polonius_the_crab::polonius(input, branch): the branch closure is called once with the reborrowed input; its
+        # Borrowing(x) is the result, its Owned(value) becomes Owned { value, input_borrow: input } (src/lib.rs of 0.4) ----
+        if path == "polonius_the_crab::polonius" and len(a) == 2 and getattr(self.w, "inline_all", False):
+            from .sym import strip_refs
+            clo = strip_refs(a[1])
+            if clo[0] == "agg" and clo[1] == "closure":
+                outs = []
+                for o in self.apply(a[1], (a[0],), site, known):
+                    v = strip_refs(o.value) if o.value is not None else None
+                    if o.end != "return" or v is None:
+                        outs.append(o)
+                    elif v[0] == "call" and v[1] and v[1].startswith("polonius_the_crab::PoloniusResult::<") and v[1].endswith(">::Owned") and len(v[3]) == 1:
+                        evs = [e for e in o.events if not (e[0] == "call" and e[1] == v)]
+                        outs.append(Out(o.conds, evs, agg("polonius_the_crab::PoloniusResult::Owned", v[3][0], a[0]), o.known, o.end))
+                    elif v[0] == "agg" and v[1] == "adt" and v[2] == "polonius_the_crab::PoloniusResult::Borrowing":
+                        outs.append(o)
+                    else:
+                        return None
+                return outs
         # ---- unsigned checked_sub: None exactly when a < b, else Some(a - b) ----
         if path.startswith("core::num::<impl u") and n == "checked_sub" and len(a) == 2:
             lt = ("binop", "Lt", a[0], a[1])
@@ -556,6 +586,13 @@ class Models:
         elif n == "copied" and len(a) == 1:
             for v, c, k in sp():
                 outs.append(Out(c, [], SOME(deref(P())) if v == "Some" else NONE, k))
+        elif n == "cloned" and len(a) == 1:
+            for v, c, k in sp():
+                if v == "Some":
+                    ce = ("call", "std::clone::Clone::clone", "<_ as std::clone::Clone>::clone", (P(),), site)
+                    outs.append(Out(c, [("call", ce)], SOME(ce), k))
+                else:
+                    outs.append(Out(c, [], NONE, k))
         elif n == "as_ref" and len(a) == 1:
             for v, c, k in split_enum(deref(o), OPT, known):
                 outs.append(Out(c, [], SOME(("ref", payload(deref(o), "Some"), False)) if v == "Some" else NONE, k))
